@@ -203,6 +203,17 @@ def handle (s : St) (fs : List String) : St × String :=
       let pr (c : Comp) : Nat := (look ps c).headD 0
       (s, "/".intercalate ((getSubgraphs r pr G).map (fun sg => showNats "," (sortNats sg))))
     | _, _, _, _ => (s, "bad-op")
+  | ["derive", kind, clsReq, clsOpt, pos, kwReq, kwOpt] =>
+    let opt : Option OptArg :=
+      if kwOpt = "-" then some .absent
+      else if kwOpt.startsWith "s" then (kwOpt.drop 1).toString.toNat?.map OptArg.single
+      else if kwOpt.startsWith "m" then (nats ',' (kwOpt.drop 1).toString).map OptArg.many
+      else none
+    match parseKind kind, parseItems clsReq, nats ',' clsOpt, parseItems pos, parseItems kwReq, opt with
+    | some k, some cr, some co, some ps, some kr, some ko =>
+      let d := derive ⟨k, cr, co, ps, kr, ko⟩
+      (s, "req=" ++ showNats "," d.requires ++ "|alo=" ++ showGroups d.atLeastOne ++ "|deps=" ++ showNats "," d.deps)
+    | _, _, _, _, _, _ => (s, "bad-op")
   | _ => (s, "bad-op")
 
 def main : IO Unit := serveState ({} : St) handle
